@@ -102,6 +102,18 @@ def drive_script(sc):
         start = ((np.array(X0) - o_) / s_).tolist()
     cfg = base_config(sc, "rvscript/script")
     cfg["optimizer"]["options"] = {"script": script}
+    if not sc["nested"] and transforms is None and not all(mask) and zlib.crc32(str(sc["script"]).encode()) % 4 == 2:
+        # relative perturbations, finite bounds for the free variables, NO bounds for the fixed ones: such a configuration is
+        # either refused or run with the fixed variables untouched
+        from ropt.config.enopt import EnOptConfig
+        from ropt.enums import PerturbationType
+        cfg["variables"].update({"lower_bounds": [-10.0 if m else -np.inf for m in mask], "upper_bounds": [10.0 if m else np.inf for m in mask]})
+        cfg["gradient"].update({"perturbation_types": int(PerturbationType.RELATIVE), "perturbation_magnitudes": 0.0125})
+        try:
+            EnOptConfig.model_validate(cfg)
+        except Exception:  # noqa: BLE001 - refused: there is no run to judge
+            return [{"ev": "Start", "x0": [int(v) for v in X0], "mask": mask, "outcome": "refused", "kind": "", "xf": [], "nested": [],
+                     "rows": [], "unpert": [], "resvars": [], "pertvars": [], "gradzero": [], "glen": -1, "seenlen": -1}]
     ctx = OptimizerContext(evaluator=rec.evaluator, plugin_manager=pm)
     ctx.add_observer(EventType.FINISHED_EVALUATION, lambda e: rec.results.extend(e.data["results"]))
     plan = Plan(ctx)
@@ -141,7 +153,12 @@ def drive_script(sc):
                                    evaluations=FunctionEvaluations.create(vec, np.zeros((R, 1))),
                                    functions=Functions.create(np.array(0.0), np.array([0.0])))
         warm.add_function(warm_fn)
+        # ... with the SAME configuration dict, in which every variable was free at that time: the mask is changed in place
+        # between the two runs
+        judged_mask = cfg["variables"]["mask"]
+        cfg["variables"]["mask"] = [True] * len(mask)
         outcome_of(lambda: plan.run_step(step, config=cfg, variables=start, nested_optimization=warm))
+        cfg["variables"]["mask"] = judged_mask
         rec.take()
         ScriptPlugin.reset([])
     _, outcome = outcome_of(lambda: plan.run_step(step, config=cfg, variables=start, **kwargs))
